@@ -5,7 +5,7 @@ import ledgerlib as L
 
 def run(tier, replay):
     return ledgercheck.run_ledger_check(
-        "C17", tier, replay, "c17", [L.oracle_c17],
+        "C17", tier, replay, "c17", [L.oracle_c17, L.oracle_no_panic],
         "Oracle: receive/finalize of a slate whose cutoff is at or below the wallet's last confirmed height is refused as expired "
         "with an unchanged snapshot, never otherwise; the final owner::update_wallet_state of each history cancels exactly the active "
         "account's unconfirmed entries whose cutoff the tip has reached and releases their outputs.")
